@@ -1,11 +1,14 @@
 #!/venv/bin/python
 """Re-runs every quick check against every kept seeded change (patch applied to
-/repo with `git apply`, undone with `git checkout -- .`) and records the result
+a scratch worktree of /repo, tools/scratch.py) and records the result
 in seeded/<id>/meta.json (key checks_that_report_it_now) and seeded/SUMMARY.md."""
 import concurrent.futures, glob, json, os, subprocess, sys
+sys.path.insert(0, os.path.dirname(os.path.abspath(__file__)))
+from scratch import scratch
 def sh(cmd): return subprocess.run(cmd, shell=True, capture_output=True, text=True)
-def run(p):
-  r = subprocess.run(['/verif/check', p, '--no-write'], capture_output=True, text=True)
+def run(a):
+  p, wt = a
+  r = subprocess.run(['/verif/check', p, '--no-write', '--repo', wt], capture_output=True, text=True)
   rules = sorted({l.split('rule=')[1].split()[0] for l in r.stdout.splitlines() if 'rule=' in l})
   return p, r.returncode, rules
 rows = []
@@ -13,14 +16,10 @@ only = sys.argv[1:]
 for d in sorted(glob.glob('/verif/seeded/C*')):
   sid = os.path.basename(d)
   if only and sid not in only: continue
-  assert sh('git -C /repo status --porcelain --untracked-files=no').stdout.strip() == ''
-  a = sh('git -C /repo apply %s/patch.diff' % d)
-  try:
-    if a.returncode: rows.append((sid, 'APPLY-FAIL', {}, {})); continue
+  with scratch(d + '/patch.diff') as (wt, applied):
+    if not applied: rows.append((sid, 'APPLY-FAIL', {}, {})); continue
     with concurrent.futures.ThreadPoolExecutor(16) as ex:
-      res = {p: (c, rules) for p, c, rules in ex.map(run, ['C%02d' % i for i in range(1, 21)]) if c != 0}
-  finally:
-    sh('git -C /repo checkout -- .')
+      res = {p: (c, rules) for p, c, rules in ex.map(run, [('C%02d' % i, wt) for i in range(1, 21)]) if c != 0}
   meta = json.load(open(d + '/meta.json'))
   first = meta.get('checks_that_report_it', {})
   meta['checks_that_report_it_now'] = {p: {'exit': c, 'rules': r} for p, (c, r) in res.items()}
